@@ -508,7 +508,13 @@ func TestVerifC34(t *testing.T) {
 	} else {
 		// length 4 only over the types the readers distinguish (SEI / not SEI, parameter set / slice)
 		few := map[string]bool{"SPS": true, "IDR": true, "SEI": true, "PSEI": true, "SSEI": true}
-		plans = []plan{{1, c34Shapes, nil}, {2, c34Shapes, nil}, {3, c34Shapes, nil}, {4, c34Shapes[:3], few}}
+		plans = []plan{
+			{1, c34Shapes, nil},
+			{2, c34Shapes, nil},
+			{3, c34Shapes[:4], nil},
+			{3, []string{"hdr+1", "10KiB"}, few}, // 10 KiB units (several buffer refills) at every position of a triple
+			{4, c34Shapes[:3], few},
+		}
 	}
 	planText := []string{}
 	for _, p := range plans {
